@@ -453,10 +453,11 @@ def r_opt_rules(ctx):
             em = And(*[e.term for e in own]) if own else TRUE
             if cname == "OptionalTasksDependency":
                 s1, s2 = sched("task_1"), sched("task_2")
-                # docs state both "task_2 is scheduled iff task_1" and "if task_1 then task_2": accept either
-                ok1, _, _ = decide_equiv(ctx, em, eq(s1, s2))
-                ok2, _, _ = decide_equiv(ctx, em, Implies(s1, s2))
-                ok, wit = (ok1 or ok2), None
+                # the class docstring says "task_2 is scheduled if and only if task_1 is scheduled", the user guide
+                # (docs/task_constraints.md) states one direction of it ("if task_1 is scheduled then task_2 is forced
+                # to be scheduled as well"): the equivalence is the only relation that satisfies both texts, the bare
+                # implication contradicts the docstring (seed C06-agent-9)
+                ok, wit, _ = decide_equiv(ctx, em, eq(s1, s2))
             else:
                 ok, wit, _ = decide_equiv(ctx, em, spec(run))
             inst = f"{where} [{describe_config(run)}]"
